@@ -83,3 +83,25 @@ def roundtrip_triggers(t):
             if r[0] in ("bin", "cmp", "bool") and T.level(r) == T.level(n):
                 keys.append("roundtrip-right-nested-equal-precedence")
     return keys
+
+
+def rewrite_triggers(t, mapping):
+    """AliasRewriter findings: keys that coincide with a function name / named-parameter
+    name / lambda variable (or a path rooted at one) used in the term."""
+    keys = list(parse_triggers(t))
+    knames = set()
+    for k in mapping:
+        r = k
+        while r[0] == "attr":
+            r = r[1]
+        knames.add((r[1], k[0] == "attr"))
+    plain = {n for n, is_path in knames if not is_path}
+    roots = {n for n, _ in knames}
+    for n in T.walk(t):
+        if n[0] == "call" and n[1].split(".")[-1] in plain:
+            keys.append("alias-rewrites-function-name")
+        if n[0] == "np" and n[1][1] in plain:
+            keys.append("alias-rewrites-named-param-name")
+        if n[0] == "lam" and n[3] and n[3] in roots:
+            keys.append("alias-rewrites-lambda-variable")
+    return keys
